@@ -331,8 +331,11 @@ func (m *Machine) assertProp(label string, c Value) {
 	case *Term:
 		r, mo := m.check(m.tf.Not(cv))
 		if r != "sat" && r != "unsat" {
-			// solver timeouts under machine load are transient: one retry
+			// solver timeouts (wall-clock) under machine load are transient:
+			// one more attempt, with four times the budget (solver.go)
+			m.solver.retryUnknown = true
 			r, mo = m.check(m.tf.Not(cv))
+			m.solver.retryUnknown = false
 		}
 		if sh := m.solver.shadow; sh != nil && (r == "sat" || r == "unsat") {
 			r2 := shadowCheck(sh, m.tf.Not(cv))
